@@ -878,7 +878,12 @@ def relax_ints(exprs, keep=()):
         elif k in (z3.Z3_OP_IDIV, z3.Z3_OP_MOD, z3.Z3_OP_REM, z3.Z3_OP_TO_INT, z3.Z3_OP_IS_INT):
             raise _NoRelax()
         elif k == z3.Z3_OP_UNINTERPRETED:
-            raise _NoRelax()
+            # an application f(args): abstracted by a fresh real constant per distinct term (drops functional
+            # consistency between different argument tuples - a relaxation, sound for unsat)
+            if e.sort() == z3.BoolSort():
+                r = z3.Bool("app@%d" % i)
+            else:
+                r = z3.Real("app@%d" % i)
         else:
             ch = [go(c) for c in e.children()]
             if k == z3.Z3_OP_ADD:
@@ -944,21 +949,27 @@ def discharge(ob, timeout_ms=10000, use_cvc5=True):
     """returns dict(status= 'unsat'|'sat'|'unknown', backend, time_s, model)"""
     import time
     t0 = time.time()
-    s = z3.Solver()
-    s.set("timeout", timeout_ms)
-    s.add(*ob.hyps)
-    s.add(z3.Not(ob.goal))
-    r = s.check()
-    dt = time.time() - t0
-    if r == z3.unsat:
-        return dict(status="unsat", backend="z3", time_s=dt, model=None)
-    if r == z3.sat:
-        return dict(status="sat", backend="z3", time_s=dt, model=model_to_dict(s.model()), z3model=s.model())
-    reason = s.reason_unknown()
-    r1 = _nlsat_relaxed(ob, timeout_ms)
-    if r1 is not None:
-        r1["time_s"] = time.time() - t0
-        return r1
+    reason = None
+    for phase, budget in (("quick", min(timeout_ms, 2500)), ("nlsat", timeout_ms), ("full", timeout_ms)):
+        if phase == "nlsat":
+            r1 = _nlsat_relaxed(ob, budget)
+            if r1 is not None:
+                r1["time_s"] = time.time() - t0
+                return r1
+            continue
+        if phase == "full" and timeout_ms <= 2500:
+            break
+        s = z3.Solver()
+        s.set("timeout", budget)
+        s.add(*ob.hyps)
+        s.add(z3.Not(ob.goal))
+        r = s.check()
+        dt = time.time() - t0
+        if r == z3.unsat:
+            return dict(status="unsat", backend="z3", time_s=dt, model=None)
+        if r == z3.sat:
+            return dict(status="sat", backend="z3", time_s=dt, model=model_to_dict(s.model()), z3model=s.model())
+        reason = s.reason_unknown()
     if use_cvc5:
         r2 = _cvc5(ob.smt2(), timeout_ms)
         if r2 is not None:
